@@ -25,6 +25,7 @@ class RowView:
 
     def __init__(self, row: Row):
         self.__dict__.update(row.attrs)
+        self.__dict__["_row"] = row
 
 
 class Config:
@@ -450,6 +451,65 @@ class Family:
             return None
         return None
 
+    def _fold_table_value(self, value: ast.expr, st: FamState, fn: FuncInfo) -> Optional[Tuple[Row, ...]]:
+        """Any other way of computing a table from tables (slices at a folded boundary, sorted(), bisect, a helper
+        method that returns such an expression): evaluated by the constant evaluator with the tables bound to their
+        current rows.  None when the value is not a closed function of the tables and constants."""
+        from .astutil import subst
+        from .calls import arg_for
+        e = value.value if isinstance(value, ast.Await) else value
+        mod = fn.module
+        # self.helper(args) with one return statement: its returned expression, parameters substituted
+        for _ in range(3):
+            c = call_chain(e) if isinstance(e, ast.Call) else None
+            if c and len(c) == 2 and c[0] == "self" and self.prog.find_method(self.ci, c[1]) is not None:
+                m = self.prog.find_method(self.ci, c[1])
+                rets = [n for n in ast.walk(m.node) if isinstance(n, ast.Return) and n.value is not None]
+                if len(rets) != 1 or m.is_async:
+                    return None
+                env = {}
+                for pn in m.params[1:]:
+                    a = arg_for(e, m, pn)
+                    if a is None:
+                        return None
+                    env[pn] = a
+                e, mod = subst(rets[0].value, env), m.module
+            else:
+                break
+        consts: Dict[str, Any] = {}
+
+        def views(rows):
+            return tuple(RowView(r) for r in rows)
+        cls_tables = {a: self.tables.table(f, a) for (f, a) in self.tables.tables if f == self.ci.name}
+        for a, rows in cls_tables.items():
+            consts[a] = views(rows)                      # bare names inside the class body
+        import copy
+
+        class Bind(ast.NodeTransformer):
+            def visit_Attribute(inner, n):
+                if isinstance(n.value, ast.Name) and n.value.id == "self" and isinstance(n.ctx, ast.Load):
+                    if n.attr in st.tables:
+                        consts["__tbl_" + n.attr] = views(st.tables[n.attr])
+                        return ast.copy_location(ast.Name(id="__tbl_" + n.attr, ctx=ast.Load()), n)
+                    if n.attr in cls_tables:
+                        return ast.copy_location(ast.Name(id=n.attr, ctx=ast.Load()), n)
+                    for k in self.prog.mro(self.ci):
+                        if hasattr(k, "class_attrs") and n.attr in k.class_attrs:
+                            try:
+                                consts["__cls_" + n.attr] = self.prog.consteval(k.class_attrs[n.attr], k.module, dict(consts), k)
+                            except NotConst:
+                                return n
+                            return ast.copy_location(ast.Name(id="__cls_" + n.attr, ctx=ast.Load()), n)
+                return inner.generic_visit(n)
+        e2 = ast.fix_missing_locations(Bind().visit(copy.deepcopy(e)))
+        try:
+            v = self.prog.consteval(e2, mod, consts, self.ci)
+        except NotConst:
+            return None
+        if isinstance(v, (tuple, list)) and all(isinstance(x, RowView) for x in v):
+            return tuple(x._row for x in v)
+        return None
+
     def _apply_filter(self, fexpr, rows: Tuple[Row, ...], fn: FuncInfo) -> Tuple[Row, ...]:
         if not hasattr(self, "_filter_cache"):
             self._filter_cache = {}
@@ -556,6 +616,12 @@ class Family:
                     st.versions[attr] = st.versions.get(attr, 0) + 1
                 else:
                     te = self._table_expr(value, st, loc)
+                    if te is None and attr in st.tables:
+                        rows = self._fold_table_value(value, st, fn)
+                        if rows is not None:
+                            st.tables[attr] = rows
+                            st.versions[attr] = st.versions.get(attr, 0) + 1
+                            continue
                     if te is None:
                         if attr not in st.tables:
                             continue      # not one of the sensor tables (e.g. a lookup cache)
